@@ -220,7 +220,7 @@ def lemma_key(item):
 
 
 def _key_witness(kr, m, why):
-    fields = {k: harness.model_value(m, v) for k, v in kr.kwargs.items()}
+    fields = kr.fields(m)
     return {"kind": "key", "text": kr.text, "fields": {k: enc(v) for k, v in fields.items()},
             "salt": kr.prog.salt, "splitters": list(kr.prog.splitters or ()), "why": why,
             "plain_fields": repr(fields)}
